@@ -42,7 +42,8 @@ for _u, (_m, _ps) in VERUS_UNITS.items():
 VERUS_ALSO = {"C09": ["chunk"], "C01": ["chunk"], "C14": ["misc"], "C16": ["evloop", "chunk"], "C17": ["evloop"],
               # every frame written / read goes through the partial-I/O loops of unit chunk (the units of these properties stub
               # send_message* / recv_* by contracts whose proof ends there): see CHARGE_RULES
-              "C02": ["chunk"], "C03": ["chunk"], "C04": ["chunk"], "C05": ["chunk"], "C06": ["chunk"], "C18": ["chunk"]}
+              "C02": ["chunk"], "C03": ["chunk"], "C04": ["chunk"], "C05": ["chunk"], "C06": ["chunk"], "C18": ["chunk"],
+              "C11": ["rank"]}
 for _p, _us in VERUS_ALSO.items():
     for _u in _us:
         if _u not in VERUS_FOR.setdefault(_p, []):
@@ -59,6 +60,9 @@ CHARGE_RULES = [
     ("chunk", r'^(recv_into_iovec_all|recv_into_iovec_real|get_sub_iovs_offset)$', r'.', ["C03", "C05", "C06", "C18"]),
     # recv_data reads request BODIES in the two request servers (not replies): C04 prologue, C05 backend server, C18 frontend-side server
     ("chunk", r'^recv_data$', r'.', ["C04", "C05", "C18"]),
+    # (un)registration of a ring's kick descriptor goes to the owning worker with the ring's rank: C11's registration invariant
+    # (Kani, one worker) relies on it for every other configuration
+    ("rank", r'^update_vring_registration$', r'.', ["C11"]),
 ]
 
 # Kani harnesses that serve further properties besides the one in their name
